@@ -55,8 +55,8 @@ func enumValues(t types.Type) []int64 {
 	return out
 }
 
-// comparisonConstants collects integer constants compared with something in f.
-func comparisonConstants(f *Func) []int64 {
+// ComparisonConstants collects integer constants compared with something in f.
+func ComparisonConstants(f *Func) []int64 {
 	seen := map[int64]bool{}
 	var out []int64
 	add := func(v int64) {
@@ -201,7 +201,7 @@ func FindCrashes(p *Prog, f *Func, budget int) (map[ast.Node]*Witness, WitnessSt
 	for _, v := range scalars {
 		seen[v] = true
 	}
-	for _, v := range comparisonConstants(f) {
+	for _, v := range ComparisonConstants(f) {
 		if !seen[v] {
 			seen[v] = true
 			scalars = append(scalars, v)
